@@ -27,7 +27,7 @@ CLAIMED = {
    text="PipelineMC.tla (feeder/worker/errgroup skeleton with the ChunkStorage and Copy disciplines) is explored exhaustively over all "
         "interleavings and all fault plans with <=2-3 failing store calls; the real ChopFile/Copy/ChunkStream run over a gated "
         "fault-injecting store for every single-fault plan of small inputs and the traces are validated by Trace_Pipeline.tla, with the "
-        "real store read back after every run. The real chop/make/tar -i/cache run against an HTTP store that fails one URL persistently and against local stores under a file-size limit; exit 0 must mean a complete store (CliOutcome.tla).",
+        "real store read back after every run. The real chop/make/tar -i/cache run against an HTTP store that fails one URL persistently and against local stores under a file-size limit; exit 0 must mean a complete store (CliOutcome.tla); for chop --ignore / --ignore-chunks: every chunk that is not listed as ignored.",
    note="Library entry points stand for the make/chop/cache/tar -i commands; the target store's pre-existing content is assumed valid.",
    technique="TLA+ spec + TLC model checking; trace validation with fault injection at every store call",
    design="4/C06"),
@@ -108,7 +108,7 @@ CLAIMED = {
    text="HttpRetry.tla defines the outcome a caller must see for a server response script and a retry budget (Required) and the loop as implemented; TLC "
         "proves them equal and proves the statement's clauses for all scripts of length <= 4-5. The real HTTP chunk and index clients run against a "
         "scripted server with real connection resets and short bodies for every short script and budget, the real client/handler pair in all 16 "
-        "compression/verify combinations, and the real RemoteSSH store against the real `desync pull` behind a fake ssh; every record is judged by the spec. Uploads of chunks read from stores of either format, damaged upstream objects behind a non-verifying server (DamagedAllowed, the server's own status), and the S3 transport against an in-memory S3 endpoint (S3Store.tla: outcome sets per response script and retry budget) are included.",
+        "compression/verify combinations, and the real RemoteSSH store against the real `desync pull` behind a fake ssh; every record is judged by the spec. Uploads of chunks read from stores of either format, damaged upstream objects behind a non-verifying server (DamagedAllowed, the server's own status), and the S3 transport against an in-memory S3 endpoint (S3Store.tla: outcome sets per response script and retry budget) are included; chunks a consumer holds while the same protocol session delivers further chunks must stay what was delivered.",
    note="S3/SFTP/GCS are not reachable offline. Keep-alives are off on the scripted server to exclude net/http's own transparent retries.",
    technique="TLA+ spec of the retry/outcome function checked by TLC; trace validation of recorded client calls",
    design="4/C14"),
